@@ -26,11 +26,19 @@ CHECKS = {
     'C07': ("model_checking", "Every operation with UNCONSTRAINED (64-bit) ids and arbitrary labels/data from every Inv state, on the IR compiled with debug assertions: each symbolic path must end in "
             "return or panic; the executor's memory model (per-allocation bounds, liveness, dealloc layout, initialisation tracking) turns any other end into a counterexample. A returning path "
             "implies the id is below the capacity and the label fits; an (N+1)-th label and a 17th member must panic; no panic within the limits. Concrete lifecycles check alloc/dealloc pairing.", "4 C07"),
+    'C08': ("model_checking", "save() and load() executed on the LLVM IR incl. serde derive, bincode, the visitors of emap/micromap/microstack, hashbrown (inside emap's visitor) and core/alloc/std (-Zbuild-std), "
+            "std::fs replaced by an in-memory file. The structure that drives the serializer (group tags, member lists, persistence) is a task per structure; edge counts, data representation/length/bytes and label "
+            "payloads are symbolic. The loaded graph's abstract state must equal the original's, the allocator position be at or below the lowest absent id, the original be byte-identical, the returned size the image size.", "4 C08"),
+    'C09': ("model_checking", "Same IR; the file handed to load() is the saved image cut at a SYMBOLIC length k < size (stub of std::fs::read): every path of load() -- one per read site of the deserializer -- must end in Err: "
+            "no Ok, no panic, no memory error. Payload bytes symbolic, structure per task.", "4 C09"),
     'C10': ("model_checking", "clone() from every Inv state: every abstract field of the copy equals the original's (data decoded by the real Hex::bytes), the copy lives in allocations made by the call "
             "(arenas and every heap datum), the original is byte-identical afterwards. Equal futures follow from the functional step relation (C19), independence from the frame clauses.", "4 C10"),
     'C17': ("model_checking", "The real Label::from_str and Display, executed together with the IR of core::str/core::num/core::fmt/alloc::string (-Zbuild-std), on symbolic texts: the shape (UTF-8 length class "
             "per character) is fixed per run, every character ranges over ALL scalar values of its class except U+0020. parse-then-print, must-reject, print-then-parse (Greek, Str, Alpha). "
             "Bounds on decimal indices are stated in the evidence (bit-blasted decimal arithmetic is the limit).", "4 C17"),
+    'C18': ("model_checking", "to_xml() and to_dot() executed on the LLVM IR incl. xml-builder, itertools' sort, core::fmt, alloc::string (-Zbuild-std). The structure of the graph is a task (two vertex slots, nine shapes "
+            "each: absent clean / absent with stale datum and edge / present with and without edges / empty, inline and heap data, read or unread); labels, edge targets and data bytes are symbolic. The text of a path is tokenised under "
+            "one model and every byte outside the payload spans is proved fixed by the solver; then: one node per present vertex in ascending order, none for absent ids; per vertex exactly its edges (label text, target) and its data iff it has data.", "4 C18"),
     'C19': ("model_checking", "Each configuration is shown to refine ONE functional step relation that mentions neither N nor the capacity (results, kids() order, next_id() = first absent id at or above the "
             "position, post-state up to the name of a new group's slot); two configurations that agree on the abstract state therefore agree on every answer. The executor reports ordering "
             "comparisons between pointers into different allocations (address-dependent behaviour); none occurs. merge/slice under arbitrary hash seeds are outside the claim.", "4 C19"),
@@ -71,19 +79,16 @@ for pid, (cat, text, ref) in CHECKS.items():
         "replay_cmd_template": "./check %s --replay {path}" % pid,
         "engine": "S",
         "level_claimed": {"category": cat, "text": text, "design_ref": "DESIGN.md section " + ref},
-        "level_note": T_NOTE if pid == 'C17' else S_NOTE,
+        "level_note": T_NOTE if pid in ('C17', 'C08', 'C09', 'C18') else S_NOTE,
         "technique": S_TECH if pid != 'C17' else "symbolic execution of rustc's LLVM IR incl. core/alloc/std (-Zbuild-std, own executor) + z3: all texts of a shape / all label values within stated bounds",
     })
 
 NA = {
     'C14': "script parsing is defined by four regex::Regex objects compiled at run time; the regex compiler/matcher cannot be encoded within reach (DESIGN.md section 6)",
-    'C08': "save/load runs serde derive + bincode + emap/micromap/microstack visitors + std::fs; Kani cannot run the emap-backed graph (DESIGN 8.1) and no encoding of the serializer on engine S was built (DESIGN.md section 6)",
-    'C09': "needs the same serde/bincode encoding as C08 with a symbolic cut point; not built (DESIGN.md section 6)",
     'C11': "merge() is recursive over HashMap<usize,usize> with RandomState (SipHash of symbolic keys) and anyhow errors; not encodable within reach on either engine (DESIGN.md section 6)",
     'C12': "same code as C11 (merge with HashMap and formatted anyhow errors); not encodable within reach (DESIGN.md section 6)",
     'C13': "slice() uses HashSet/HashMap with RandomState over an emap-backed graph and a caller-supplied predicate; not encodable within reach (DESIGN.md section 6)",
-    'C18': "the observable is text produced by core::fmt, xml-builder and itertools::sorted over an emap-backed graph: Kani can run neither the graph nor the formatter, and no per-structure encoding on engine S was built (DESIGN.md section 6)",
-    'C20': "inspect()/Debug/v_print produce formatted text and inspect() walks with a HashSet; same obstacles as C18 and C13 (DESIGN.md section 6)",
+    'C20': "inspect()/Debug/v_print produce formatted text and inspect() walks with a HashSet whose keys would be symbolic edge targets (SipHash of symbolic values); the text route of C18 would apply to Debug/v_print but no obligation was built in the time available (DESIGN.md section 6)",
 }
 na = []
 for p in props:
